@@ -408,4 +408,13 @@ _add_kind("C06", "split", _SPLIT, "Run.EvalStream", ["XS.Lib.Bufio"])
 for _pid in ("C11", "C13"):
     _add_kind(_pid, "mix", _MIX, "Run.EvalConc")
 _add_kind("C03", "codec", {"type": "case_codec", "chk": "chk_codec", "sig": "sig_codec", "scope": "N_scope"}, "Run.EvalCodec", ["XS.Run.EvalConfig"])
+_add_kind("C13", "emu", {"type": "case_emu", "chk": "chk_emu", "sig": "sig_emu", "scope": "N_scope"}, "Run.EvalEmu", ["XS.Model.Emulator"])
+# the order of state change and acknowledge in the emulator's receive loop (C16's reflective check on the regenerated skeleton)
+for _pid in ("C04", "C06", "C11", "C13", "C16", "C17", "C18"):
+    if "Tie/EmuOrderOk.v" not in PROPS[_pid]["tie_files"]:
+        PROPS[_pid]["tie_files"].append("Tie/EmuOrderOk.v")
+# C19's end-to-end cases go through the emulator
+for _t in ("Tie/EmuAgree.v", "Tie/EmuDisciplined.v", "Tie/EmuOrderOk.v", "Tie/ConfAgree.v"):
+    if _t not in PROPS["C19"]["tie_files"]:
+        PROPS["C19"]["tie_files"].append(_t)
 
